@@ -606,11 +606,11 @@ impl fmt::Display for VariableType {
                 (0.0, f64::INFINITY) => "NonNegativeReal".to_string(),
                 _ => format!(
                     "NonNegativeReal({}, {})",
-                    min,
+                    crate::utils::number_to_source(*min),
                     if *max == f64::INFINITY {
                         "Infinity".to_string()
                     } else {
-                        max.to_string()
+                        crate::utils::number_to_source(*max)
                     }
                 ),
             },
@@ -621,12 +621,12 @@ impl fmt::Display for VariableType {
                     if *min == f64::NEG_INFINITY {
                         "MinusInfinity".to_string()
                     } else {
-                        min.to_string()
+                        crate::utils::number_to_source(*min)
                     },
                     if *max == f64::INFINITY {
                         "Infinity".to_string()
                     } else {
-                        max.to_string()
+                        crate::utils::number_to_source(*max)
                     }
                 ),
             },
